@@ -46,10 +46,10 @@ def frame_pairs(repo, res):
                 # IMG = CUT + origin (per axis): an Add whose operands are the cutout value and an origin term
                 for node in ast.walk(fi.node):
                     if isinstance(node, ast.BinOp) and isinstance(node.op, ast.Add):
-                        l, r_ = unparse(node.left, 0), unparse(node.right, 0)
-                        if (f'self.{cut}' in l or 'idx[' in l or l in ('idx', 'index')) and (ORIGIN_RE.search(r_) or r_ == 'origin'):
-                            ok = True
-                            how = f'{img} = {cut} + origin'
+                        for l, r_ in ((unparse(node.left, 0), unparse(node.right, 0)), (unparse(node.right, 0), unparse(node.left, 0))):
+                            if (f'self.{cut}' in l or 'idx[' in l or l in ('idx', 'index')) and (ORIGIN_RE.search(r_) or r_ == 'origin'):
+                                ok = True
+                                how = f'{img} = {cut} + origin'
                 if ok and 'origin' in src_i and 'origin =' in src_i.replace('origin = ', 'origin ='):
                     # origin must itself be built from origin sources
                     od = [s for s in ast.walk(fi.node) if isinstance(s, ast.Assign) and unparse(s.targets[0]) == 'origin']
